@@ -247,8 +247,9 @@ Theorem recover_exact : forall listed last_id nrows,
   insert_supported listed nrows = true ->
   recover listed last_id nrows = Some (assigned_keys listed last_id nrows).
 Proof.
-  intros [vals |] last_id nrows H; cbn in *; [reflexivity |].
-  rewrite H. apply Nat.eqb_eq in H. subst. reflexivity.
+  intros [ks |] last_id nrows H; cbn in *; [| reflexivity].
+  apply andb_true_iff in H. destruct H as [H _].
+  destruct (all_explicit ks); [reflexivity |]. cbn in H. rewrite H. reflexivity.
 Qed.
 
 Theorem at_insert_exact : forall trk krs listed last_id t,
@@ -326,17 +327,22 @@ Proof.
   eexists. eexists. eexists. split; [vm_compute; reflexivity |]. split; [discriminate | reflexivity].
 Qed.
 
-(* key recovery fails to name the inserted row when the listed key value is NULL (or 0): the database generates
-   the key, the executor looks the row up by NULL *)
-Theorem recover_refuted :
-  exists listed last_id nrows,
-    insert_supported listed nrows = false
-    /\ recover listed last_id nrows = Some [[VNull]]
-    /\ [[VInt last_id]] <> [[VNull]].
-Proof. exists (Some [[VNull]]), 4%Z, 1. repeat split; discriminate. Qed.
+(* a statement that mixes explicit and generated key values is refused: its generated keys cannot be identified *)
+Theorem recover_mixed_refused : forall ks last_id nrows,
+  all_explicit ks = false -> all_generated ks = false -> recover (Some ks) last_id nrows = None.
+Proof. intros ks last_id nrows H1 H2. cbn. rewrite H1, H2. reflexivity. Qed.
 
-Theorem recover_batch_refuted : forall last_id n, 2 <= n -> recover None last_id n = None.
-Proof. intros last_id n H. cbn. destruct (Nat.eqb n 1) eqn:E; [apply Nat.eqb_eq in E; lia | reflexivity]. Qed.
+(* before the repairs (kept for the record): a listed NULL was taken as the key, a batch was not recovered *)
+Definition recover_prefix (listed : option (list key)) (last_id : Z) (nrows : nat) : option (list key) :=
+  match listed with
+  | Some ks => Some ks
+  | None => if Nat.eqb nrows 1 then Some [[VInt last_id]] else None
+  end.
+
+Theorem recover_prefix_refuted :
+  recover_prefix (Some [[VNull]]) 4%Z 1 = Some [[VNull]] /\ assigned_keys (Some [[VNull]]) 4%Z 1 = [[VInt 4%Z]]
+  /\ recover_prefix None 4%Z 2 = None.
+Proof. repeat split; reflexivity. Qed.
 
 (* ---- the argument index of a key placeholder ---- *)
 Lemma count_firstn_split : forall (row : list bool) n,
